@@ -236,7 +236,7 @@ def run_rules(ctx, rule_ids):
         rd = RULES[rid]
         rr = RuleRun(ctx, rd)
         rd.func(rr)
-        if len(rr.instances) < rd.min_instances:
+        if len(rr.instances) < rd.min_instances and not rr.findings:
             raise AnalysisError(
                 '%s matched %d program constructs, fewer than the %d '
                 'confirmed by hand: the rule would pass vacuously' % (
